@@ -67,9 +67,15 @@ DIRECTED_SOUND = [
 ]
 # well-formed: inheritance graphs in which an ancestor is reached twice before the parent that declares the field
 DIRECTED_SOUND += [(d["key"], d["text"]) for d in tdgen.diamond_cases()]
+# well-formed: a class forward-declared (also in an included header) and defined later; a local name spelled like an earlier
+# def / defset (the local wins: no type diagnostic); named template arguments that bind every argument without default
+DIRECTED_SOUND += [(d["key"], d["files"]) for d in tdgen.forward_class_cases() + tdgen.shadowed_def_cases()]
+DIRECTED_SOUND += tdgen.named_argument_cases()
 DIRECTED_COMPLETE = [
     ("classvalue-undefined-class", "def d { int x = Foo<1>.y; }", [16, 19], "ClassNotFound"),
 ]
+# a template argument without default left unbound while other arguments are passed BY NAME
+DIRECTED_COMPLETE += tdgen.named_missing_argument_cases()
 
 
 def covers(d, f):
@@ -201,12 +207,11 @@ def run(ctx):
                                   "diagnostics": i["diagnostics"]})
     # ---- regression inputs (repaired defects) and the registered known finding
     known = vlib.known_keys("C13")
-    dws = [{"files": {"/w/main.td": t}, "root": "/w/main.td"} for _k, t in DIRECTED_SOUND]
-    for (k, t), o in zip(DIRECTED_SOUND, sl.impl(bindir, dws, offsets="none")):
-        if o.get("panic") or o["diagnostics"]["/w/main.td"]:
-            ctx.violation("false positive on %r: %r" % (t, o.get("diagnostics")),
-                          {"property": "C13", "part": "sound", "workspace": {"files": {"/w/main.td": t}, "root": "/w/main.td"},
-                           "directed": k})
+    dws = [{"files": (t if isinstance(t, dict) else {"/w/main.td": t}), "root": "/w/main.td"} for _k, t in DIRECTED_SOUND]
+    for (k, t), w, o in zip(DIRECTED_SOUND, dws, sl.impl(bindir, dws, offsets="none")):
+        if o.get("panic") or any(o["diagnostics"].values()):
+            ctx.violation("false positive on %s %r: %r" % (k, w["files"]["/w/main.td"], o.get("diagnostics")),
+                          {"property": "C13", "part": "sound", "workspace": w, "directed": k})
             found = True
     dws = [{"files": {"/w/main.td": t}, "root": "/w/main.td"} for _k, t, _s, _c in DIRECTED_COMPLETE]
     for (k, t, site, cls), o in zip(DIRECTED_COMPLETE, sl.impl(bindir, dws, offsets="none")):
